@@ -63,6 +63,12 @@ for m in sorted(glob.glob('seeded/*/meta.json')):
         dv = dv['result'] + (' (earlier rounds: ' + '; '.join(h[:90] for h in dv['history']) + ')' if dv.get('history') else '')
     out.append('| %s | %s | %s |' % (sid, need, str(dv).replace('|', '\\|')))
 out.append(open('tools/design_asbuilt_tail.md').read().rstrip('\n'))
+# ---- independent re-check
+if os.path.exists('docs/coqchk.txt'):
+    out.append('\n## 16c. Independent re-check (coqchk -o)\n\n```\n' + open('docs/coqchk.txt').read().rstrip('\n') + '\n```\n' +
+               '`ClassicalEpsilon.constructive_indefinite_description` enters the loaded context through Coquelicot; no property '
+               'theorem of this development depends on it according to `Print Assumptions` (section 17), but it is part of the '
+               'context coqchk lists and is named here for completeness.')
 # ---- trusted base from evidence
 out.append('''
 ## 17. Trusted base as measured (from the `Print Assumptions` output collected into evidence/*.json)
